@@ -203,7 +203,9 @@ CLAIMED = {
                 "(C07_no_deadlock_B; the unordered variant deadlocks, decide example). NOT covered: livelock/fair termination of the retry "
                 "loop, parking_lot queueing, the individual stores of the final "
                 "publish step, memory ordering, wait_for_change wake-ups; the premise that operations access shared memory only through Transaction::read/write is "
-                "tested by the explorer (defects D3/D4 found this way were repaired).",
+                "tested by the explorer (defects D3/D4 found this way were repaired). Interleavings INSIDE commit() are explored at lock granularity "
+                "on the real parking_lot locks for a subset of scenarios (try-lock + yield at every acquisition); a reversed lock order "
+                "is found to deadlock by the explorer's self-test. Known finding D15h: collapse_edge hangs alone on a corner triangle.",
         "design_ref": "DESIGN.md §7 C07, §4.1",
     },
     "C13": {
